@@ -25,6 +25,17 @@ def main():
         demo = os.path.join(d, "demo.py") if os.path.exists(os.path.join(d, "demo.py")) else None
         a = sh("git -C %s apply %s/patch.diff" % (wt, d))
         if a.returncode != 0:
+            # the lines around the change moved: a three-way merge against the blobs the patch was made from
+            sh("git -C %s checkout -- . && git -C %s clean -fdq" % (wt, wt))
+            a = sh("git -C %s apply --3way %s/patch.diff" % (wt, d))
+            conflicts = sh("git -C %s diff --name-only --diff-filter=U" % wt).stdout.decode().strip()
+            if a.returncode == 0 and not conflicts:
+                status["rebased"] = "three-way merge onto %s" % head
+                sh("git -C %s reset -q" % wt)
+            else:
+                a.returncode = 1
+                sh("git -C %s reset -q --hard" % wt)
+        if a.returncode != 0:
             # /repo has moved on (a repair touched the same lines): the change is kept for the record, but is stale
             status["state"] = "stale: the patch no longer applies to HEAD"
             json.dump(status, open(os.path.join(d, "status.json"), "w"), indent=1)
